@@ -7,6 +7,7 @@ CONSTANTS
   Horizon = 14
   HeadCheck = TRUE
   MaxHold = 2
+  CritOn = FALSE
   ExportOn = TRUE
   SampleMod = 1
   MaxAnn = 16
